@@ -1,0 +1,27 @@
+//go:build verif
+
+package ast
+
+// Verification hook (property C05): exposes the token stream of the real lexer goroutine.
+// Add-only; compiled only with the build tag `verif`.
+
+// VerifToken is one token exactly as the lexer goroutine emitted it.
+type VerifToken struct {
+	Typ int
+	Pos int
+	Val string
+}
+
+// VerifLex runs the real lexer on input and collects at most max tokens.
+// closed reports whether the lexer closed its channel (terminated) within those tokens.
+func VerifLex(input string, max int) (toks []VerifToken, closed bool) {
+	l := lex(input)
+	for len(toks) < max {
+		t, ok := l.nextToken()
+		if !ok {
+			return toks, true
+		}
+		toks = append(toks, VerifToken{Typ: int(t.typ), Pos: t.pos, Val: t.val})
+	}
+	return toks, false
+}
